@@ -414,7 +414,7 @@ def c01_r3(ctx):
 
 
 # --------------------------------------------------------------------- R4
-SINKS = ("append", "add", "_collect", "heappush", "heapreplace", "insort")
+SINKS = ("append", "add", "_collect", "heappush", "heapreplace", "insort", "final_fn", "final")  # final(top_searcher, docnum, score) takes the GLOBAL number
 
 
 @rule("C01", "R4", "K11", "segment-local document numbers are globalised with the offset of their own segment",
@@ -689,3 +689,145 @@ def c01_r6(ctx):
         sets = [st.lineno for st in ast.walk(g.node) if isinstance(st, (ast.Assign, ast.AugAssign)) and
                 any(norm.canon(t) == "self._id" for t in (st.targets if isinstance(st, ast.Assign) else [st.target]))]
         ctx.ob(g, bool(calls_find) and (not sets or max(sets) < max(calls_find)), "%s() calls _find_next() after its last change of self._id" % mname)
+
+
+# --------------------------------------------------------------------- R7
+@rule("C01", "R7", "K2", "a term range drops lexicon terms only for the documented reasons",
+      min_instances=1,
+      clause="TermRange._btexts yields every term terms_from(fieldname, start) produces except: it stops at another field, "
+             "at a term beyond `end`, or at `end` itself when endexcl; it skips a term only if it EQUALS `start` and "
+             "startexcl (the first term produced need not be `start`); the iterator is consumed by the loop only.")
+def c01_r7(ctx):
+    prog = ctx.prog
+    f = prog.method("query.ranges.TermRange", "_btexts", inherited=False)
+    ctx.saw(f)
+    A = pm.Alpha(f)
+    loops = [lp for lp in ast.walk(f.node) if isinstance(lp, ast.For) and "terms_from(" in norm.deep_canon(lp.iter, f.node)]
+    ctx.ob(f, len(loops) == 1 and norm.deep_canon(loops[0].iter, f.node).endswith("terms_from(self.fieldname, start)")
+           or (len(loops) == 1 and A.eq(norm.inline_defs(loops[0].iter, f.node), "ixreader.terms_from(self.fieldname, start)")),
+           "one loop over ixreader.terms_from(fieldname, start)")
+    if len(loops) != 1:
+        return
+    lp = loops[0]
+    # nothing else consumes the iterator
+    eaters = [norm.canon(c) for c in norm.calls_in(f.node) if norm.call_name(c) in ("next", "islice", "dropwhile", "takewhile", "__next__")]
+    ctx.ob(f, not eaters, "the term iterator is consumed by the loop only", detail=str(eaters))
+    if not (isinstance(lp.target, ast.Tuple) and len(lp.target.elts) == 2 and all(isinstance(e, ast.Name) for e in lp.target.elts)):
+        ctx.ob(f, False, "loop unpacks (fieldname, term)")
+        return
+    fn, t = lp.target.elts[0].id, lp.target.elts[1].id
+    fa = guards.Facts(f)
+    al = fa.al
+    # the locals holding the encoded bounds: `start` is what terms_from() is given, `end` the one derived from self.end
+    tf = [c for c in norm.calls_in(norm.inline_defs(lp.iter, f.node)) if norm.call_name(c) == "terms_from"]
+    start = norm.canon(tf[0].args[1]) if tf and len(tf[0].args) > 1 else "start"
+    ends = [nm_ for nm_, vals in norm.assigned_names(f.node).items() if any(v is not None and "self.end" in norm.canon(v) for v in vals)]
+    end = ends[0] if len(ends) == 1 else "end"
+
+    def has(facts, pol, *texts):
+        return any((pol, x) in facts for x in texts)
+    for n in fa.g.nodes:
+        a = n.ast
+        if n.kind != "stmt" or not isinstance(a, (ast.Continue, ast.Break)) or not any(x is a for x in ast.walk(lp)):
+            continue
+        entries = fa.per_entry(n) or [fa.at(n) or frozenset()]
+        oks = []
+        for facts in entries:
+            eq_start = has(facts, "T", "(%s == %s)" % (start, t), "(%s == %s)" % (t, start))
+            eq_end = has(facts, "T", "(%s == %s)" % (end, t), "(%s == %s)" % (t, end))
+            if isinstance(a, ast.Continue):
+                oks.append(eq_start and has(facts, "T", "self.startexcl", "startexcl"))
+            else:
+                other_field = has(facts, "F", "(%s == self.fieldname)" % fn, "(self.fieldname == %s)" % fn, "(%s == fieldname)" % fn, "(fieldname == %s)" % fn)
+                beyond = has(facts, "T", "(%s < %s)" % (end, t))
+                at_end = eq_end and has(facts, "T", "self.endexcl", "endexcl")
+                oks.append(other_field or beyond or at_end)
+        if isinstance(a, ast.Continue):
+            ctx.ob(f, all(oks), "a term is skipped only if it equals start and the start is exclusive",
+                   detail="facts per way in: %s" % [sorted(x) for x in entries], loc=ctx.nodeloc(f, a))
+        else:
+            ctx.ob(f, all(oks), "the expansion stops only at another field, beyond end, or at an exclusive end",
+                   detail="facts per way in: %s" % [sorted(x) for x in entries], loc=ctx.nodeloc(f, a))
+    ys = [y for y in ast.walk(lp) if isinstance(y, ast.Yield)]
+    ctx.ob(f, len(ys) == 1 and norm.canon(ys[0].value) == t, "yields the term itself")
+
+
+# --------------------------------------------------------------------- R8
+@rule("C01", "R8", "K2", "NestedChildMatcher publishes a child document number only after asking is_deleted about it",
+      min_instances=2, also=("C07",),
+      clause="In NestedChildren.NestedChildMatcher.next and ._find_next_children the value stored into self._nextchild was, "
+             "since its last increment, rejected by `is_deleted(x)` evaluating false or found to be at/past the next parent "
+             "(the matcher is then inactive or moves to the next group); NestedChildren passes the reader's is_deleted.")
+def c01_r8(ctx):
+    prog = ctx.prog
+    cls = prog.cls("query.nested.NestedChildren.NestedChildMatcher")
+    for mname in ("next", "_find_next_children"):
+        f = cls.methods.get(mname)
+        if f is None:
+            raise AnalysisError("NestedChildMatcher.%s vanished" % mname)
+        ctx.saw(f)
+        al = norm.aliases(f.node)
+        # the local that is published: self._nextchild = <local>
+        pubs = [st for st in ast.walk(f.node) if isinstance(st, ast.Assign) and any(norm.canon(t) == "self._nextchild" for t in st.targets)]
+        cur = set()
+        for st in pubs:
+            for t in st.targets:
+                if isinstance(t, ast.Name):
+                    cur.add(t.id)
+            if isinstance(st.value, ast.Name):
+                cur.add(st.value.id)
+        cur.add("self._nextchild")
+
+        def stmt_event(func, node, _cur=cur):
+            a = node.ast
+            if node.kind != "stmt":
+                return None
+            evs = []
+            if isinstance(a, ast.AugAssign) and norm.canon(a.target) in _cur:
+                evs.append("moved")
+            if isinstance(a, ast.Assign):
+                tnames = [norm.canon(t) for t in a.targets]
+                v = a.value
+                fresh = isinstance(v, ast.BinOp) or (isinstance(v, ast.Call))
+                if any(t in _cur for t in tnames) and fresh:
+                    evs.append("moved")
+                if "self._nextchild" in tnames:
+                    evs.append("publish")
+            return evs or None
+
+        def edge_event(func, node, label, _cur=cur):
+            if node.kind != "test":
+                return None
+            t = norm.canon(node.ast, al)
+            pol = label[0]
+            for c in _cur:
+                if t == "self.is_deleted(%s)" % c:
+                    return "accepted" if pol == "F" else "rejected"
+                if t in ("(%s < nextparent)" % c, "(%s < self._nextparent)" % c) and pol == "F":
+                    return "accepted"
+            return None
+
+        def delta(state, ev):
+            if state == "BAD":
+                return state
+            if ev in ("moved", "rejected"):
+                return "D"
+            if ev == "accepted":
+                return "C"
+            if ev == "publish" and state == "D":
+                return "BAD"
+            return state
+        ts = TypeState(prog, calls_of(prog), delta, lambda *a: None, stmt_event=stmt_event, edge_event=edge_event, max_depth=0)
+        ts.all_states = ("C", "D")
+        exits = ts.run(f, cls, "C")
+        bad = exits.get("BAD")
+        ctx.ob(f, bool(pubs) and bad is None, "self._nextchild is only set to a number that is_deleted() let through (or that lies past the group)",
+               detail="a freshly incremented child number is published without asking is_deleted(): deleted child documents are returned" if bad else "",
+               path=cfgmod.path_text(bad) if bad else None)
+    nm = prog.method("query.nested.NestedChildren", "matcher", inherited=False)
+    calls = [c for c in norm.calls_in(nm.node) if norm.call_name(c) == "NestedChildMatcher"]
+    ok = False
+    if len(calls) == 1:
+        m, probs = bind_args(calls[0], cls.methods["__init__"])
+        ok = bool(m) and not probs and norm.deep_canon(m.get("is_deleted"), nm.node).endswith(".is_deleted")
+    ctx.ob(nm, ok, "NestedChildren.matcher passes the reader's is_deleted to the child matcher")
